@@ -189,6 +189,32 @@ Example c05_example :
   /\ occ_stringb [Lit 97; Var 1; Var 1]%N [98; 97; 99; 99; 97; 98; 98]%N 2 = false.
 Proof. repeat split; vm_compute; reflexivity. Qed.
 
+(** strings, independent of the order of the constraint vector: the matcher built from any
+    constraint list with the same elements as the model's [s_cvec p] — which is what the
+    comparison of the implementation's try_to_constraint_vec with [s_cvec], as multisets,
+    establishes — reports exactly the occurrences *)
+From PM Require Import Proofs.StringSingleAnyOrder.
+
+Theorem c05_string_single_exact_in_any_constraint_order :
+  forall (p : spattern) (cs : list sconstraint),
+    (forall c, In c cs <-> In c (s_cvec p)) -> p <> [] ->
+  forall h fuel r,
+    single string_dom fuel cs h = Ok r ->
+    (forall m, In m r -> exists a len, m = SBound a len /\ occ_string p h a)
+    /\ (forall a, occ_string p h a <-> exists len, In (SBound a len) r).
+Proof. exact s_single_exact_any. Qed.
+
+From PM Require Import Proofs.MatrixSingleAnyOrder.
+
+Theorem c05_matrix_single_exact_in_any_constraint_order :
+  forall (p : mpattern) (cs : list mconstraint),
+    (forall c, In c cs <-> In c (m_cvec p)) ->
+  forall h fuel r,
+    single matrix_dom fuel cs h = Ok r ->
+    (forall m, In m r -> exists s a b, m = MBound s a b /\ occ_matrix p h s)
+    /\ (forall s, occ_matrix p h s <-> exists a b, In (MBound s a b) r).
+Proof. exact m_single_exact_any. Qed.
+
 (** ** the text front end of the two pattern types (beyond the property: the glue in
     front of the baselines).  Model/Parse.v models StringPattern::parse_str and
     MatrixPattern::parse_str; both are compared with the implementation through
@@ -246,3 +272,5 @@ Print Assumptions c05_string_print_parse.
 Print Assumptions c05_string_parse_fails_only_on_trailing_dollar.
 Print Assumptions c05_matrix_parse_print.
 Print Assumptions c05_matrix_parse_fails_only_on_trailing_dollar.
+Print Assumptions c05_string_single_exact_in_any_constraint_order.
+Print Assumptions c05_matrix_single_exact_in_any_constraint_order.
